@@ -45,23 +45,63 @@ def H(s):
 
 
 def jobs_text(jobs, repo):
-    return "".join(f"J {H(str(repo / 'database' / db))} {H(t)}\n" for _, db, t in jobs)
+    out = []
+    for j in jobs:
+        flags = j[3] if len(j) > 3 else ""
+        db = j[1] if "dbstring" in flags else str(repo / "database" / j[1])
+        out.append(f"J {H(db)} {H(j[2])} {flags}\n")
+    return "".join(out)
 
 
-def run_h(ctx, exe, jobs, nthreads, coexist, churn, tsan=False, timeout=1800):
+LOCKMON = ["-DLOCKMON", "-Wl,--wrap=pthread_mutex_lock", "-Wl,--wrap=pthread_mutex_unlock"]
+LAST = {}
+
+
+def run_h(ctx, exe, jobs, nthreads, coexist, churn, tsan=False, timeout=1800, hold=None, cwd=None):
+    """returns (exit code, {job: result}, ids, stderr); LAST holds the F lines, lock-balance counters and the jobs whose nested
+    partner was never started, of the most recent call"""
+    import subprocess
     import vlib
     env = dict(os.environ)
     if tsan:
         env["TSAN_OPTIONS"] = TSAN_ENV
-    r = ctx.run_harness(exe, jobs_text(jobs, vlib.REPO), [str(nthreads), str(coexist), str(churn)], timeout=timeout, env=env)
+    args = [str(nthreads), str(coexist), str(churn)] + ([str(hold)] if hold is not None else [])
+    r = subprocess.run([str(exe)] + args, input=jobs_text(jobs, vlib.REPO), text=True, capture_output=True, timeout=timeout, env=env, cwd=cwd)
     res, ids = {}, []
+    LAST.clear()
+    LAST.update({"F": {}, "lockbal": None, "notnested": []})
     for l in r.stdout.splitlines():
         w = l.split()
         if w and w[0] == "R":
-            res[int(w[1])] = {"id": int(w[2]), "rc": int(w[3]), "h": w[4:10], "rows": int(w[10])}
+            res[int(w[1])] = {"id": int(w[2]), "rc": int(w[3]), "h": w[4:10], "rows": int(w[10]), "unbal": int(w[11]) if len(w) > 11 else 0}
+        elif w and w[0] == "F":
+            LAST["F"][int(w[1])] = {"id": int(w[2]), "names": w[3:7], "sel": w[7], "files": w[8] if len(w) > 8 else "-"}
         elif w and w[0] == "IDS":
             ids = [int(x) for x in w[1:]]
+        elif w and w[0] == "LOCKBAL":
+            LAST["lockbal"] = (int(w[1]), int(w[2]))
+        elif w and w[0] == "NOTNESTED":
+            LAST["notnested"].append(int(w[1]))
     return r.returncode, res, ids, r.stderr
+
+
+QSORT_KEY = "qsort-guard-unlock-without-lock"
+
+
+def lock_balance(ctx, label, js, res, hist):
+    """every pthread_mutex_unlock of qsort_lock / map_lock must follow a lock by the same thread (harness lock monitor)"""
+    lb = LAST.get("lockbal")
+    if lb is None:
+        return
+    hist["lock_balance_runs"] += 1
+    bad = [k for k, r in res.items() if r.get("unbal", 0) > 0]
+    if lb[1] > 0:
+        ctx.violation(f"{label}: map_lock unlocked {lb[1]} time(s) by a thread that had not locked it", {"mode": "seq", "jobs": [js[k] for k in bad] or js})
+    if lb[0] > 0:
+        hist["unlock_without_lock"] += lb[0]
+        ctx.finding(QSORT_KEY, f"{label}: qsort_lock unlocked {lb[0]} time(s) without a preceding lock by the same thread "
+                    f"(jobs {[js[k][0] + ':' + js[k][1][:24] for k in bad][:4]}; `if (n > 1) qsort(...)` with n <= 1 under the thread.h macro)",
+                    {"mode": "seq", "jobs": [js[k] for k in bad][:3]})
 
 
 def tsan_reports(stderr):
@@ -114,19 +154,30 @@ def compare(ctx, label, jobs, ref, got, judged, hist):
 
 def explore(ctx, budget, tsan_budget, repeats, thread_counts, hist):
     import vlib
-    exe = ctx.build_harness("ph_threads")
+    exe = ctx.build_harness("ph_threads", extra=LOCKMON)
     ctx.build_lib("tsan", cxxflags=TSAN_FLAGS)
     exet = ctx.build_harness("ph_threads", variant="tsan", extra=["-fsanitize=thread", "-g1"])
     rng = ctx.rng
     jobs = gt.jobs(rng, budget)
-    strict = [j for j in jobs if j[0] not in TRANSPORT_FAMILIES]
+    nload = ctx.n(8, 20) if ctx.tier == "thorough" or budget < 100 else 20
+    loads = gt.load_jobs(rng, nload)
+    if (ctx.prop, QSORT_KEY) in ctx.known or hist.get("audit", {}).get("qsort_conditional", 1) == 0:
+        loads += gt.tiny_db_jobs(rng, 2)
+    else:
+        # Concrete_PHR.dat (fails alone, one master species missing) and the tiny databases reach `if (n > 1) qsort(...)` with
+        # n <= 1: reported to the lead; run only once the finding is listed or the macro is repaired
+        loads = [j for j in loads if j[1] != "Concrete_PHR.dat"]
+        hist["lock_balance_families_held_back"] = ["tiny_db", "load_db:Concrete_PHR.dat"]
+    strict = [j for j in jobs if j[0] not in TRANSPORT_FAMILIES] + loads
     trans = [j for j in jobs if j[0] in TRANSPORT_FAMILIES] + gt.multi_d_jobs(rng, max(2, budget // 10))
-    for name, _, _ in jobs + trans:
-        hist["families"][name] = hist["families"].get(name, 0) + 1
+    for j in strict + trans:
+        hist["families"][j[0]] = hist["families"].get(j[0], 0) + 1
     evals = 0
     distinct = set()
     for label, js, judged in (("strict", strict, True), ("transport", trans, False)):
+        ctx.log(f"phase {label}: {len(js)} jobs")
         rc, ref, ids, err = run_h(ctx, exe, js, 1, 0, 0)
+        lock_balance(ctx, label, js, ref, hist)
         if rc != 0 or len(ref) != len(js):
             ctx.violation(f"sequential reference run of the {label} jobs did not return normally (exit {rc})",
                           {"mode": "seq", "jobs": js, "stderr": err[-2000:]})
@@ -149,8 +200,9 @@ def explore(ctx, budget, tsan_budget, repeats, thread_counts, hist):
         # threads, native
         for nt in thread_counts:
             for rep in range(repeats):
-                co, ch = rng.randint(0, 4), rng.randint(0, 3)
-                rc, got, ids3, err = run_h(ctx, exe, js, nt, co, ch)
+                co, ch, hold = rng.randint(0, 4), rng.randint(0, 3), rng.randint(0, 3)
+                rc, got, ids3, err = run_h(ctx, exe, js, nt, co, ch, hold=hold)
+                hist["hold_hist"][hold] = hist["hold_hist"].get(hold, 0) + 1
                 evals += len(js)
                 hist["thread_runs"] += 1
                 hist["ids_checked"] += len(ids3)
@@ -171,7 +223,7 @@ def explore(ctx, budget, tsan_budget, repeats, thread_counts, hist):
                         ctx.finding("transport-file-scope-globals", what, {"mode": "par", "threads": nt, "jobs": js})
         # threads under ThreadSanitizer
         tj = js[:tsan_budget]
-        rc, got, ids4, err = run_h(ctx, exet, tj, min(8, max(2, len(tj))), 2, 2, tsan=True)
+        rc, got, ids4, err = run_h(ctx, exet, tj, min(8, max(2, len(tj))), 2, 2, tsan=True, hold=2)
         evals += len(tj)
         hist["tsan_runs"] += 1
         reps = tsan_reports(err)
@@ -193,12 +245,115 @@ def explore(ctx, budget, tsan_budget, repeats, thread_counts, hist):
                 ctx.violation("results depend on what other threads do: " + what, {"mode": "tsan", "jobs": tj, "job_index": k})
             else:
                 ctx.finding("transport-file-scope-globals", what, {"mode": "tsan", "jobs": tj})
+    evals += nested_phase(ctx, exe, ctx.n(8, 40), hist)
+    evals += names_phase(ctx, exe, ctx.n(3, 12), hist)
     return evals, len(distinct)
+
+
+def nested_phase(ctx, exe, npairs, hist):
+    """two instances interleaved on ONE thread: the outer job's run calls the BASIC callback at every punch; inside one of these
+    calls another instance is created, loaded, run and destroyed. The outer and the inner results must equal the sequential
+    ones (no threads, no race detector: a difference or a crash is a deterministic observable effect of shared state)."""
+    rng = ctx.rng
+    pairs = gt.nested_pairs(rng, npairs)
+    evals = 0
+    ctx.log(f"phase nested: {len(pairs)} pairs")
+    for pi, (outer, inner) in enumerate(pairs):
+        js = [outer, inner]
+        known = outer[0] == "transport_multi_d" and inner[0] == "transport_multi_d"
+        rc, ref, _, err = run_h(ctx, exe, js, 1, 0, 0)
+        if rc != 0 or len(ref) != 2:
+            ctx.violation(f"sequential reference of a nested pair did not return normally (exit {rc})", {"mode": "seq", "jobs": js, "stderr": err[-1000:]})
+            continue
+        for at in ([3, 7] if known else [rng.choice([2, 3, 4, 5, 7, 9])]):
+            rc, got, _, err = run_h(ctx, exe, js, 0, 0, 0, hold=at)
+            evals += 2
+            key = f"{outer[0]}>{inner[0]}"
+            if rc == 0 and LAST["notnested"]:
+                hist["nested_not_reached"] += 1
+                continue
+            hist["nested_pairs"][key] = hist["nested_pairs"].get(key, 0) + 1
+            what = None
+            if rc != 0:
+                what = f"process died (exit {rc}) when instance B ({inner[0]}) ran inside callback {at} of instance A's ({outer[0]}) run, same thread"
+            else:
+                d = [("A", 0), ("B", 1)]
+                diff = [n for n, k in d if got.get(k) is None or got[k]["rc"] != ref[k]["rc"] or got[k]["h"] != ref[k]["h"]]
+                if diff:
+                    what = f"results of instance {'/'.join(diff)} differ from the sequential ones when B ({inner[0]}) runs inside callback {at} of A's ({outer[0]}) run"
+            if what is None:
+                hist["nested_identical"] += 1
+                continue
+            if known:
+                hist["nested_known_effect"] += 1
+                ctx.finding("transport-file-scope-globals", "deterministic, single thread: " + what, {"mode": "nested", "at": at, "jobs": js})
+            else:
+                ctx.violation("instances are not isolated (single thread, nested calls): " + what, {"mode": "nested", "at": at, "jobs": js})
+    return evals
+
+
+def names_phase(ctx, exe, njobs, hist):
+    """the only allowed id dependence: default file names. The same jobs run in two processes at different ids (other instances
+    created first) with default names and every file sink on, each in an empty scratch directory: names reported by the getters =
+    `pmodel api` prediction (Model/Settings.lean `fresh`, `selName`) for that id; files written = exactly the predicted names;
+    every channel and every file's content identical between the two ids."""
+    import shutil
+    import tempfile
+    rng = ctx.rng
+    js = gt.default_name_jobs(rng, njobs)
+    runs = []
+    ctx.log(f"phase default names: {len(js)} jobs at two id offsets")
+    for co in (0, rng.randint(1, 9)):
+        d = tempfile.mkdtemp(prefix="c06names_")
+        try:
+            rc, res, ids, err = run_h(ctx, exe, js, 1, co, 0, cwd=d)
+            runs.append((co, rc, res, dict(LAST["F"]), sorted(os.listdir(d))))
+        finally:
+            shutil.rmtree(d, ignore_errors=True)
+    evals = 0
+    unhex = lambda h: "" if h == "-" else bytes.fromhex(h).decode()
+    for co, rc, res, F, listing in runs:
+        if rc != 0 or len(res) != len(js):
+            ctx.violation(f"default-name jobs did not return normally (exit {rc})", {"mode": "seq", "coexist": co, "jobs": js})
+            return evals
+        q = []
+        for k in range(len(js)):
+            nums = [x.split("=")[0] for x in F[k]["sel"].split(",")] if F[k]["sel"] != "-" else []
+            q.append(f"defaultnames {F[k]['id']} " + " ".join(nums))
+        pred = ctx.pmodel("api", "\n".join(q) + "\n")
+        for k in range(len(js)):
+            evals += 1
+            hist["default_name_checks"] += 1
+            exp = pred[k].split()
+            got = [unhex(x) for x in F[k]["names"]] + ([unhex(x.split("=")[1]) for x in F[k]["sel"].split(",")] if F[k]["sel"] != "-" else [])
+            if got != exp:
+                ctx.violation(f"default file names of instance {F[k]['id']} are {got}, model (function of the id) says {exp}",
+                              {"mode": "names", "coexist": co, "jobs": [js[k]]})
+            files = sorted(unhex(x.split("=")[0]) for x in F[k]["files"].split(",")) if F[k]["files"] != "-" else []
+            if files != sorted(set(exp)):
+                ctx.violation(f"files written by instance {F[k]['id']} with default names: {files}, predicted {sorted(set(exp))}",
+                              {"mode": "names", "coexist": co, "jobs": [js[k]]})
+    (c0, _, r0, F0, _), (c1, _, r1, F1, _) = runs
+    for k in range(len(js)):
+        i0, i1 = F0[k]["id"], F1[k]["id"]
+        hist["id_pairs"].append([i0, i1])
+        if r0[k]["rc"] != r1[k]["rc"] or r0[k]["h"] != r1[k]["h"]:
+            ch = [n for n, x, y in zip(["output", "selected", "error", "warning", "dump", "components"], r0[k]["h"], r1[k]["h"]) if x != y]
+            ctx.violation(f"same calls at id {i0} and at id {i1}: channels {ch} differ (only default file names may depend on the id)",
+                          {"mode": "names", "coexist": c1, "jobs": [js[k]]})
+        f0 = {unhex(x.split("=")[0]).replace(f".{i0}.", ".<id>."): x.split("=")[1] for x in F0[k]["files"].split(",")} if F0[k]["files"] != "-" else {}
+        f1 = {unhex(x.split("=")[0]).replace(f".{i1}.", ".<id>."): x.split("=")[1] for x in F1[k]["files"].split(",")} if F1[k]["files"] != "-" else {}
+        if f0 != f1:
+            ctx.violation(f"files written at id {i0} and at id {i1} differ beyond the id in their names: {sorted(set(f0.items()) ^ set(f1.items()))[:4]}",
+                          {"mode": "names", "coexist": c1, "jobs": [js[k]]})
+    return evals
 
 
 def run(ctx):
     hist = {"families": {}, "job_comparisons": 0, "sequential_reruns": 0, "thread_runs": 0, "tsan_runs": 0, "tsan_reports": 0,
-            "tsan_reports_known": 0, "ids_checked": 0, "jobs_with_error_rc": 0}
+            "tsan_reports_known": 0, "ids_checked": 0, "jobs_with_error_rc": 0, "lock_balance_runs": 0, "unlock_without_lock": 0,
+            "hold_hist": {}, "nested_pairs": {}, "nested_identical": 0, "nested_known_effect": 0, "nested_not_reached": 0,
+            "default_name_checks": 0, "id_pairs": []}
     audit, glob = {}, {}
     translators_ok = True
     try:
